@@ -17,7 +17,7 @@ from mc.gen import c07_progs as G
 ID = "C07"
 LEVEL = "model_checking"
 EXHAUSTIVE = True
-CASE_TIMEOUT = 1800
+CASE_TIMEOUT = 14400   # wall clock per work item; the development machine was loaded 20x
 RULE = ("programs = mc.gen.c07_progs.corpus_keys(tier): full products callee "
         "signature (scalar / explicit-shape x(nx) / x(0:mx) / assumed-shape x(:) / "
         "x(2:) / 2-D / structure dummies) x body (sequences of <=2 (quick) / <=3 "
@@ -58,15 +58,25 @@ _TIER = "quick"
 
 
 def _corpus(tier):
+    """VERIF_C07_FAMILIES=RT,AR (development aid, recorded in the bounds)
+    restricts the corpus to the named program families."""
     if tier not in _CORPUS:
-        _CORPUS[tier] = G.corpus_keys(tier)
+        keys = G.corpus_keys(tier)
+        only = os.environ.get("VERIF_C07_FAMILIES")
+        if only:
+            keep = set(only.split(","))
+            keys = [k for k in keys if k.split(":", 1)[0] in keep]
+        _CORPUS[tier] = keys
     return _CORPUS[tier]
 
 
 def bounds(tier):
-    return {"programs": len(_corpus(tier)), "inputs": "n in 1..3 x k in 1..2 (m = n+1)",
-            "max_body_statements": 2 if tier == "quick" else 3,
-            "max_dummies": 2 if tier == "quick" else 3}
+    out = {"programs": len(_corpus(tier)), "inputs": "n in 1..3 x k in 1..2 (m = n+1)",
+           "max_body_statements": 2 if tier == "quick" else 3,
+           "max_dummies": 2 if tier == "quick" else 3}
+    if os.environ.get("VERIF_C07_FAMILIES"):
+        out["families_only"] = os.environ["VERIF_C07_FAMILIES"]
+    return out
 
 
 def cases(tier):
